@@ -15,8 +15,9 @@ import itertools
 from lib.core import Ctx
 
 ID = "C03"
-LEAN_TARGETS = ["AiuVerif.Props.C03"]
+LEAN_TARGETS = ["AiuVerif.Props.C03", "AiuVerif.Props.C03G"]
 THEOREMS = [
+    "AiuVerif.C03.delivery_exact_global",   # arbitrary sharing of contexts (global store), Props/C03G.lean
     "AiuVerif.C03.run_eq_runSpec",
     "AiuVerif.C03.received_eq_emitted",
     "AiuVerif.C03.received_succ",
@@ -24,7 +25,8 @@ THEOREMS = [
     "AiuVerif.C03.shared_barrier_ok",
     "AiuVerif.C03.shared_barrier_batch",
 ]
-RULE = ("stage graphs over {pass,drop,dup,expand,dropall,hold,rev,delay,gen,barrier}: exhaustive up to a length "
+RULE = ("stage graphs over {pass,drop,dup,expand,dropall,hold,rev,delay,gen,barrier} and, for the global-store model, "
+        "{collect,apply} sharing ONE two-phase context object drained once per registration: exhaustive up to a length "
         "bound x inputs of length 0..3, plus random graphs up to length 12 with inputs up to 30; a case is "
         "non-trivial when at least one event is delivered to a stage behind a holding/barrier stage or "
         "a stage changes the event count; distinct = distinct (graph, input)")
@@ -34,6 +36,10 @@ ASSUMPTIONS = ["callbacks are deterministic functions of (event, context state)"
 NOT_YET_PROVED = []
 
 KINDS = ["pass", "drop", "dup", "expand", "dropall", "hold", "rev", "delay", "gen", "barrier"]
+# a two-phase context written against the developer README: ONE context object shared by every `collect` and
+# `apply` stage of a graph; it is drained once per registration (first drain ends the collection phase, later
+# drains release what the applying stages hold).  Covered by the global-store engine model (Props/C03G.lean).
+KINDS_G = KINDS + ["collect", "apply"]
 
 
 # ---------------------------------------------------------------------------------------------
@@ -135,6 +141,41 @@ def run_real(kinds, inp, shared=False):
             shared_cbs[kind] = cb
         return shared_cbs[kind]
 
+    tp_idx = [i for i, k in enumerate(kinds) if k in ("collect", "apply")]
+    tp_drained = [0]
+
+    class TwoPhase(AbstractContext):
+        def __init__(self):
+            super().__init__()
+            self.phase, self.count, self.held = False, 0, []
+
+        def drain(self):
+            i = tp_idx[tp_drained[0]]
+            tp_drained[0] += 1
+            drains.append(i)
+            if not self.phase:
+                self.phase = True
+                return []
+            r, self.held = self.held, []
+            emis[i] += [e["args"]["id"] for e in r]
+            return r
+    tp = TwoPhase()
+
+    def mk_tp(kind, i):
+        def cb(event, context):
+            x = event["args"]["id"]
+            log.append((i, x))
+            if kind == "collect":
+                context.count += 1
+                r = [event]
+            else:
+                context.held.append(_with_id(event, x + context.count))
+                r = []
+            emis[i] += [e["args"]["id"] for e in r]
+            return r
+        cb.__name__ = f"{kind}{i}"
+        return cb
+
     names = ["pipeline_barrier" if k == "barrier" else (k if shared and k in STATELESS else f"{k}{i}")
              for i, k in enumerate(kinds)]
     prof_data = {"stages": [{n: True} for n in names]}
@@ -170,6 +211,8 @@ def run_real(kinds, inp, shared=False):
                     return ep.pipeline_barrier(event, context)
                 b.__name__ = "pipeline_barrier"
                 proc.register_stage(b, bctx)
+            elif k in ("collect", "apply"):
+                proc.register_stage(mk_tp(k, i), tp)
             elif shared and k in STATELESS:
                 proc.register_stage(mk_shared(k), None)
             else:
@@ -269,6 +312,16 @@ def gen_cases(ctx: Ctx):
         for kinds in itertools.product(KINDS, repeat=n):
             if len(set(k for k in kinds if k in STATELESS)) < len([k for k in kinds if k in STATELESS]):
                 yield list(kinds), [1, 2, 3], True
+    # graphs with the shared two-phase context (global-store model only)
+    for n in range(1, 4):
+        for kinds in itertools.product(KINDS_G, repeat=n):
+            if "collect" in kinds or "apply" in kinds:
+                yield list(kinds), [1, 2], False
+    for _ in range(ctx.n(600, 8000)):
+        n = ctx.rng.randint(2, 10)
+        kinds = [ctx.rng.choice(KINDS_G if ctx.rng.random() < 0.5 else ["collect", "apply", "hold", "barrier", "dup", "gen"]) for _ in range(n)]
+        if "collect" in kinds or "apply" in kinds:
+            yield kinds, [ctx.rng.randint(1, 99) for _ in range(ctx.rng.randint(0, 12))], False
     ctx.extra["exhaustive_upto_len"] = L
     for _ in range(ctx.n(1500, 30000)):
         n = ctx.rng.randint(1, 12)
@@ -303,6 +356,19 @@ def run(ctx: Ctx):
         reals.append(r)
     if ctx.search_mode or not ctx.driver or not ctx.driver.ok:
         return
+    # every case against the global-store engine (GStage.run / runLog) ...
+    outs_g = ctx.driver.ask([line(c["kinds"], c["input"]).replace("c03 ", "c03g ", 1) for c in cases])
+    for case, r, o in zip(cases, reals, outs_g):
+        m = parse_model(o)
+        sh = case.get("shared", False)
+        lab = [k if (sh and k in STATELESS) else i for i, k in enumerate(case["kinds"])]
+        ctx.compare("global-store engine model (GStage) vs EventProcessor/Engine.run (exported ids + delivery log)", case,
+                    {"out": m["out"], "log": [[lab[i], x] for (i, x) in m["log"]]},
+                    {"out": r["out"], "log": [list(x) for x in r["log"]]})
+        ctx.count("graphs_with_shared_two_phase_context", int("collect" in case["kinds"] or "apply" in case["kinds"]))
+    # ... and the graphs without a two-phase context also against the private-state / shared-barrier engine
+    pairs = [(c, r) for c, r in zip(cases, reals) if "collect" not in c["kinds"] and "apply" not in c["kinds"]]
+    cases, reals = [c for c, _ in pairs], [r for _, r in pairs]
     outs = ctx.driver.ask([line(c["kinds"], c["input"]) for c in cases])
     for case, r, o in zip(cases, reals, outs):
         m = parse_model(o)
@@ -339,7 +405,10 @@ def shrink(ctx: Ctx, case, classifier):
                 break
     return {"kinds": kinds, "input": inp, "shared": sh}
 
-LEVEL_TEXT = ("Lean theorems over a model of EventProcessor/Engine for arbitrary stage callbacks, states, pipeline "
+LEVEL_TEXT = ("delivery_exact_global: for ARBITRARILY shared contexts (every callback and drain reads and writes one global "
+              "store; contexts may be drained several times) stage 0 receives exactly the input, every later stage exactly what "
+              "its predecessor emitted from callback or drain, in order, and the exporter exactly what the last stage emitted. "
+              "Further, Lean theorems over a model of EventProcessor/Engine for arbitrary stage callbacks, states, pipeline "
               "lengths and inputs: the streaming engine equals sequential batch composition (run_eq_runSpec); the "
               "sequence delivered to stage i is exactly the batch output of the stages before it (received_eq_emitted: "
               "exactly once, emission order, held-back events traverse all later stages); a non-emitting stage splits "
